@@ -133,6 +133,10 @@ pub fn fragments() -> Vec<Fragment> {
             ("Icc", arr(vec![n("ICCBased"), r(12)])),
             ("Samp", arr(vec![n("Separation"), n("S2"), n("DeviceGray"), r(14)])),
             ("Lab", arr(vec![n("CalRGB"), d(vec![("WhitePoint", arr(vec![i(1), i(1), i(1)]))])])),
+            // the same kinds as indirect objects, so that a substitution can make them refer to themselves or each other
+            ("DevN2", r(15)),
+            ("Sep2", r(16)),
+            ("Idx2", r(17)),
         ]);
         let mut objs = skeleton(vec![], vec![("Resources", d(vec![("ColorSpace", cs), ("XObject", d(vec![("Im", r(20))])), ("Pattern", d(vec![("P1", r(21))]))])), ("Contents", r(30))]);
         objs.extend(vec![
@@ -141,6 +145,9 @@ pub fn fragments() -> Vec<Fragment> {
             (12, st(vec![("N", i(3)), ("Alternate", r(11)), ("Range", arr(vec![i(0), i(1), i(0), i(1), i(0), i(1)]))], b"icc profile bytes")),
             (13, st(vec![("FunctionType", i(4)), ("Domain", arr(vec![i(0), i(1), i(0), i(1)])), ("Range", arr(vec![i(0), i(1), i(0), i(1), i(0), i(1)]))], b"{ dup 3 1 roll add 2 index mul exch pop 0.5 }")),
             (14, st(vec![("FunctionType", i(0)), ("Domain", arr(vec![i(0), i(1)])), ("Range", arr(vec![i(0), i(1)])), ("Size", arr(vec![i(4)])), ("BitsPerSample", i(8)), ("Encode", arr(vec![i(0), i(3)])), ("Decode", arr(vec![i(0), i(1)])), ("Order", i(1))], &[0, 64, 128, 255])),
+            (15, arr(vec![n("DeviceN"), arr(vec![n("A")]), r(11), f2.clone()])),
+            (16, arr(vec![n("Separation"), n("S3"), r(15), f2.clone()])),
+            (17, arr(vec![n("Indexed"), r(16), i(1), Val::str(&[0, 255])])),
             (20, st(vec![("Type", n("XObject")), ("Subtype", n("Image")), ("Width", i(2)), ("Height", i(2)), ("ColorSpace", r(11)), ("BitsPerComponent", i(8)), ("SMask", r(22)), ("Decode", arr(vec![i(0), i(1)]))], &[0, 1, 1, 0])),
             (21, st(vec![("Type", n("Pattern")), ("PatternType", i(1)), ("PaintType", i(1)), ("TilingType", i(1)), ("BBox", rect(10, 10)), ("XStep", i(10)), ("YStep", i(10)), ("Resources", r(23))], b"0 0 5 5 re f")),
             (22, st(vec![("Type", n("XObject")), ("Subtype", n("Image")), ("Width", i(2)), ("Height", i(2)), ("ColorSpace", n("DeviceGray")), ("BitsPerComponent", i(8))], &[9, 9, 9, 9])),
@@ -358,6 +365,49 @@ pub fn structural_cases() -> Vec<(String, Vec<u8>)> {
         w.xref_stream(11, 30, &[(Bytes::from("Root"), r(1))], false, &[], false);
         out.push((format!("objstm/{}", label), w.finish()));
     }
+    // object streams whose offset table holds boundary numbers (object number and offset of each member)
+    for (k, table) in ["20 2147483647", "20 4294967295", "20 9223372036854775807", "20 18446744073709551615", "20 99999999999999999999999999", "18446744073709551615 0", "20 5 21 0", "20 0 21 18446744073709551615", "20 18446744073709551615 21 18446744073709551615", "20 -1"].iter().enumerate() {
+        let mut w = Writer::new(b"", "1.5");
+        base(&mut w);
+        let nmembers = table.split(' ').count() / 2;
+        let body = format!("{} <</A 1>> <</B 2>>", table);
+        let dict = vec![(Bytes::from("Type"), n("ObjStm")), (Bytes::from("N"), i(nmembers as i64)), (Bytes::from("First"), i(table.len() as i64 + 1))];
+        w.stream_obj(10, 0, &dict, body.as_bytes());
+        for m in 0..nmembers {
+            w.pending.insert(20 + m as u64, crate::engine::writer::XEntry::Compressed { stm: 10, idx: m });
+        }
+        // cross-reference entries whose index is exactly N, N+1 and far beyond
+        for (j, idx) in [nmembers, nmembers + 1, 255, 65535].into_iter().enumerate() {
+            w.pending.insert(24 + j as u64, crate::engine::writer::XEntry::Compressed { stm: 10, idx });
+        }
+        w.xref_stream(11, 30, &[(Bytes::from("Root"), r(1)), (Bytes::from("Extra"), arr(vec![r(20), r(21)]))], false, &[], false);
+        out.push((format!("objstm/offset-table-{}", k), w.finish()));
+    }
+    // date strings (information dictionary, read when the file is opened, and an annotation): every prefix of a full date
+    // followed by a multi-byte character, an invalid byte, letters, or nothing
+    {
+        let full = b"D:20240229123456+05'30'";
+        let tails: [&[u8]; 6] = [b"", "\u{e9}".as_bytes(), "\u{20ac}".as_bytes(), "\u{1F600}".as_bytes(), b"\xff", b"x-"];
+        for cut in 0..=full.len() {
+            for (ti, tail) in tails.iter().enumerate() {
+                let mut date = full[..cut].to_vec();
+                date.extend_from_slice(tail);
+                let mut w = Writer::new(b"", "1.4");
+                let mut objs = crate::engine::writer::minimal_catalog(1, 2, 3, 1);
+                if let Val::Dict(d) = &mut objs[2].1 {
+                    d.push((Bytes::from("Annots"), arr(vec![r(5)])));
+                }
+                for (num, v) in objs {
+                    w.obj(num, 0, &v);
+                }
+                w.obj(4, 0, &d(vec![("CreationDate", Val::Str(Bytes(date.clone()))), ("ModDate", Val::Str(Bytes(date.clone())))]));
+                w.obj(5, 0, &d(vec![("Type", n("Annot")), ("Subtype", n("Text")), ("Rect", rect(10, 10)), ("M", Val::Str(Bytes(date.clone())))]));
+                w.free(0, 0, 65535);
+                w.xref_table(6, &[(Bytes::from("Root"), r(1)), (Bytes::from("Info"), r(4))], false);
+                out.push((format!("date/{}-{}", cut, ti), w.finish()));
+            }
+        }
+    }
     // nesting beyond the supported depth
     for depth in [19usize, 20, 21, 100, 10000] {
         for kind in 0..3 {
@@ -540,4 +590,4 @@ pub fn run(ctx: &Ctx) {
     );
 }
 
-pub const RULE: &str = "cases = syntactically valid files written by the harness from 7 typed schema fragments (page tree direct and compressed, name/number trees and outlines, fonts, colour spaces and functions, streams/forms/annotations/fields, encryption dictionary): every reference slot pointed in turn at every object of its fragment, at object 0 and at a missing object; every numeric slot set in turn to each of {-1, 0, 1, 2^31-1, 2^32-1, 2^64-1, -2^31, 65536, 255, 0.5, -1e30, 3.4e38} (all single-slot substitutions in both tiers); random 2-5 slot combinations; structural cases (/Prev loops of length 1-3, hostile xref-stream /W /Index /Size, object streams lying about N/First or containing/extending themselves, nesting 19/20/21/100/10000 deep); oracle = C01's: the deep walk in a worker process returns from every call, no panic, no abnormal exit, no confirmed time-out, allocation within the proportional bound; non-trivial = the file loaded (typed loading reached the planted structure); distinct by substitution";
+pub const RULE: &str = "cases = syntactically valid files written by the harness from 7 typed schema fragments (page tree direct and compressed, name/number trees and outlines, fonts, colour spaces and functions, streams/forms/annotations/fields, encryption dictionary): every reference slot pointed in turn at every object of its fragment, at object 0 and at a missing object; every numeric slot set in turn to each of {-1, 0, 1, 2^31-1, 2^32-1, 2^64-1, -2^31, 65536, 255, 0.5, -1e30, 3.4e38} (all single-slot substitutions in both tiers); random 2-5 slot combinations; structural cases (/Prev loops of length 1-3, hostile xref-stream /W /Index /Size, object streams lying about N/First or containing/extending themselves or with boundary numbers in their offset table, nesting 19/20/21/100/10000 deep, date strings cut at every length and continued with multi-byte, invalid or alphabetic bytes); oracle = C01's: the deep walk in a worker process returns from every call, no panic, no abnormal exit, no confirmed time-out, allocation within the proportional bound; non-trivial = the file loaded (typed loading reached the planted structure); distinct by substitution";
